@@ -7,7 +7,7 @@ RULE = ("random Domains (length 1-40 / 1-300, from dr or dk) x tabulated omega g
         "(incl. single-row and single-value files) x k-grid relation {equal, shifted, rescaled, truncated, extended, one point perturbed by a factor "
         "straddling the allclose threshold (0.3..3 x (1e-8+1e-5|k|))}; outcome (accepted / rejected) and, when accepted, the returned values are compared "
         "BITWISE with the Lean model; predicate: verbatim-or-exception, decided by an independent allclose transcription; caller-array mutation probe; "
-        "wrong-length one-column files pushed through createPRISM/cost. Non-trivial = mismatch families and straddling perturbations; distinct = distinct case")
+        "wrong-length one-column files pushed through createPRISM/cost; ONE omega object evaluated on a sequence of matching / non-matching grids of the same length. Non-trivial = mismatch families and straddling perturbations; distinct = distinct case")
 EXTRA_TRUSTED = ["np.allclose modelled from NumPy's documentation (|a-b| <= 1e-8 + 1e-5|b|), NaN not modelled",
                  "np.loadtxt is outside the model: the harness writes the file with repr() floats and passes the same numbers to the model"]
 ASSUMPTIONS = ["finite inputs"]
@@ -95,7 +95,33 @@ def prism_accepts(path, case):
     except Exception:
         return False
 
-SUITES = {'array': suite_array, 'file': suite_file}
+def suite_history(ctx, case):
+    """ONE FromArray / FromFile object evaluated on a sequence of domains (a domain sweep): every evaluation must be accepted or
+    rejected on its own merits - nothing may be remembered from an earlier, matching evaluation"""
+    rows = case['rows']; path = None
+    try:
+        if case['kind'] == 'file':
+            path = write_file(rows); o = pyPRISM.omega.FromFile(path)
+        elif case['kind'] == 'array-k':
+            o = pyPRISM.omega.FromArray(np.array([r[1] for r in rows], dtype=float), np.array([r[0] for r in rows], dtype=float))
+        else:
+            o = pyPRISM.omega.FromArray(np.array([r[1] for r in rows], dtype=float))
+        for step, kd in enumerate(case['grids']):
+            sub = dict(case, grids=case['grids'][:step + 1])
+            impl = outcome(lambda: o.calculate(np.array(kd, dtype=float)))
+            if case['kind'] == 'file':
+                flat = [x for r in rows for x in r]
+                line = 'ff.calc fixed %d %d | %s | %s' % (len(rows), 2, fl(flat), fl(kd))
+            else:
+                line = 'fa.calc | %s | %s | %s' % (fl([r[1] for r in rows]), 'none' if case['kind'] == 'array' else fl([r[0] for r in rows]), fl(kd))
+            ctx.corr('history', sub, ctx.drv.ask(line), impl, what='evaluation #%d of the same omega object' % step)
+            exp = expected([r[1] for r in rows], None if case['kind'] == 'array' else [r[0] for r in rows], kd)
+            want = 'ERR rejected' if exp is None else 'ok ' + fl(exp)
+            ctx.pred('history', sub, impl == want, 'evaluation #%d of one %s object: got %s..., property demands %s...' % (step, case['kind'], impl[:40], want[:40]), key='C12:history')
+    finally:
+        if path: os.unlink(path)
+
+SUITES = {'array': suite_array, 'file': suite_file, 'history': suite_history}
 
 def gen_domain(rng, maxL):
     L = rng.choice([1, 2, 3, 5, 8, 16, rng.randint(1, maxL)])
@@ -120,6 +146,18 @@ def relate(rng, kd, rel):
 
 def generate(ctx):
     rng = ctx.rng; maxL = ctx.n(40, 300)
+    for _ in range(ctx.n(120, 1500)):
+        L, dr, kd = gen_domain(rng, 24)
+        rows = [[k, round(rng.uniform(0, 30), 6)] for k in kd]
+        grids = [kd]
+        for _ in range(rng.randint(1, 4)):
+            rel = rng.choice(['equal', 'rescaled', 'rescaled', 'shifted', 'perturbed', 'truncated', 'extended'])
+            g = relate(rng, kd, rel) or [kd[0]]
+            if rel == 'rescaled' and rng.random() < 0.5: g = [2.0 * x for x in kd]          # same length, other spacing (Domain(dr/2))
+            grids.append(g)
+        if rng.random() < 0.3: rng.shuffle(grids)
+        case = {'kind': rng.choice(['file', 'file', 'array-k', 'array']), 'rows': rows, 'grids': grids}
+        ctx.case('history', case, True, tags=['history:' + case['kind'], 'evals:%d' % len(grids)]); suite_history(ctx, case)
     for _ in range(ctx.n(600, 8000)):
         L, dr, kd = gen_domain(rng, maxL)
         rel = rng.choice(['equal', 'equal', 'shifted', 'rescaled', 'truncated', 'extended', 'perturbed', 'perturbed'])
